@@ -41,7 +41,7 @@ var R = hx.NewRecorder("C10", "cases = small PKIs (<=3 roots, <=5 intermediate c
 var cv = rsm2.Std
 
 func TestMain(m *testing.M) {
-	R.Require("cross_signed", "loop", "expired_intermediate", "pathlen_violation", "forged_sig", "nonCA_intermediate", "name_constraint_fail", "name_constraint_fail_mixed_forms", "critical_san_uri_only", "forged_twin_after_genuine", "intermediate_critical_ext", "uninterpreted_san:critical=true", "wildcard", "ip_san", "accept", "reject", "self_issued", "leaf_in_roots", "eku_reject", "critical_ext", "sigalg_sm2_with_sha", "leaf_name_spells_ip", "dnsname_spells_ip", "cn_spells_ip")
+	R.Require("cross_signed", "loop", "expired_intermediate", "pathlen_violation", "forged_sig", "nonCA_intermediate", "name_constraint_fail", "name_constraint_fail_mixed_forms", "critical_san_uri_only", "forged_twin_after_genuine", "intermediate_critical_ext", "uninterpreted_san:critical=true", "wildcard", "ip_san", "accept", "reject", "self_issued", "leaf_in_roots", "eku_reject", "critical_ext", "sigalg_sm2_with_sha", "noncritical_unknown_before_critical_known", "leaf_name_spells_ip", "dnsname_spells_ip", "cn_spells_ip")
 	hx.Main(m, R)
 }
 
@@ -170,6 +170,15 @@ func build(t *rapid.T, p *pki) {
 			default:
 				tpl.MaxPathLen = s.maxPath
 			}
+		}
+		if s.bcValid && s.isCA && s.maxPath < 0 && !s.v1 && gen.Uniform(t, "extorder", 5) == 0 {
+			// the order in which other toolchains write extensions: a private, NON-critical extension first and the
+			// critical basicConstraints after it (handed over through ExtraExtensions, which keeps the order given)
+			tpl.BasicConstraintsValid, tpl.IsCA = false, false
+			tpl.ExtraExtensions = append(tpl.ExtraExtensions,
+				pkix.Extension{Id: asn1.ObjectIdentifier{1, 2, 3, 4, 5, 98}, Critical: false, Value: []byte{5, 0}},
+				pkix.Extension{Id: asn1.ObjectIdentifier{2, 5, 29, 19}, Critical: true, Value: []byte{0x30, 0x03, 0x01, 0x01, 0xff}})
+			R.Class("noncritical_unknown_before_critical_known")
 		}
 		if s.critExt {
 			// an extension no verifier here interprets, marked critical: a private OID, or a standard one from the
